@@ -966,6 +966,24 @@ func lemma_C03_connectResRoundtrip(tid, bits uint64) bool {
 	return err == nil && prim_eqbytes(b2, b)
 }
 
+// connect response whose args object is empty (the shortest possible trailing field: 03 00 00 09)
+//@ bounded lemma_C03_connectResEmptyArgs 4
+//@ lemma C03.connect-res.empty-args.bounded
+func lemma_C03_connectResEmptyArgs(tid uint64) bool {
+	p := NewConnectAppResPacket(amf0.Number(math.Float64frombits(tid)))
+	p.Args = amf0.NewObject()
+	b, err := p.MarshalBinary()
+	if err != nil || len(b) != p.Size() || len(b) != (3+7)+9+(1+3)+(1+3) {
+		return false
+	}
+	q := NewConnectAppResPacket(0)
+	if err = q.UnmarshalBinary(b); err != nil || q.Args == nil {
+		return false
+	}
+	b2, err := q.MarshalBinary()
+	return err == nil && q.Size() == len(b) && prim_eqbytes(b2, b)
+}
+
 // createStream and its response: null command object, stream id
 //@ bounded lemma_C03_createStreamRoundtrip 4
 //@ lemma C03.create-stream.roundtrip.bounded
